@@ -139,6 +139,9 @@ pub mod traits;
 mod io;
 mod join;
 
+#[cfg(blake3_team_blake3_verif)]
+pub mod verif_hooks;
+
 use arrayref::{array_mut_ref, array_ref};
 use arrayvec::{ArrayString, ArrayVec};
 use core::cmp;
